@@ -128,6 +128,9 @@ def read_job(job):
     objectio, bc = _fresh()
     res = {}
     held = None
+    if job.get('config') == 'cleared':
+        # the reader after set_io_objects(); clear_io_objects(): every statement is handed back as a parsed line
+        objectio.clear_io_objects()
     try:
         for earlier in job.get('session') or []:
             # earlier documents of the same configured session: read, then released
@@ -144,7 +147,19 @@ def read_job(job):
                 res['pre_failed'] = type(e).__name__
                 e = None
         try:
-            out = objectio.read_pil(job['text'], ignore=job.get('ignore'))
+            if job.get('config') == 'cleared':
+                # read_pil_line guards every branch with `<class> is not None`: an unconfigured reader hands every parsed
+                # statement back unchanged (read_pil itself is only specified for a configured reader)
+                from dsdobjects.dsdparser import parse_pil_string
+                for stmt in parse_pil_string(job['text']):
+                    got = objectio.read_pil_line(stmt)
+                    if got != stmt:
+                        raise AssertionError('unconfigured reader did not hand the statement back')
+                out = None
+                res['outcome'] = 'ok'
+                res['line'] = 'read raw'
+            else:
+                out = objectio.read_pil(job['text'], ignore=job.get('ignore'))
         except Exception as e:
             res['outcome'] = 'err ' + type(e).__name__
             res['line'] = 'read err ' + (type(e).__name__ if type(e).__name__ in DECLARED else 'Fault ' + type(e).__name__)
